@@ -70,6 +70,8 @@ def forms_x86():
                     if scale is not None and not index:
                         continue
                     mems.append(mem_x86(d, base, index, scale))
+    # displacement only (absolute address; a negative absolute address is not meaningful and not generated)
+    mems += [mem_x86(d, None, None, None) for d in (("16", 16), ("4096", 4096), ("0x40", 64), ("0x601040", 0x601040), ("0", 0))]
     return regs, imms, mems
 
 
@@ -197,6 +199,23 @@ def check_line(mnem, ops, layout, what):
         R.fail(f"{PROP}/roundtrip/operands", f"{PROP}:operands:{what}", f"{text!r}: " + "; ".join(bad)[:500], dict(line=text))
 
 
+def split_ops(rest):
+    """split an operand string at top-level commas (not inside braces / brackets)"""
+    out, depth, cur = [], 0, ""
+    for ch in rest:
+        if ch in "{[":
+            depth += 1
+        if ch in "}]":
+            depth -= 1
+        if ch == "," and depth == 0:
+            out.append(cur.strip())
+            cur = ""
+        else:
+            cur += ch
+    out.append(cur.strip())
+    return out
+
+
 def main():
     if ISA == "x86":
         regs, imms, mems = forms_x86()
@@ -204,9 +223,15 @@ def main():
         label = (".L10", lambda o: isinstance(o, IdentifierOperand) and o.name == ".L10")
         mn = {0: "ret", 1: "incq", 2: "vaddpd", 3: "vfmadd231pd", 4: "vpternlogd"}
         maxops = 4
+        # labels as written: also such that start like a register / condition / segment name
+        xlabels = [".L10", "main", "rax_loop", "r8_x", "xmm0_l", "k1_lab", "ne_loop", "st_loop", "cl_loop", "bpl_x", "rip_l", "_start", "foo.bar", ".LBB0_12", "L$1"]
         for lay in range(len(LAYOUTS)):
             check_line("jne", [label], lay, "label")
             check_line("ret", [], lay, "noops")
+            for nm in xlabels:
+                lb = (nm, (lambda nm: (lambda o: isinstance(o, IdentifierOperand) and o.name == nm))(nm))
+                for mnem in ("jne", "jmp", "call"):
+                    check_line(mnem, [lb], lay, "label")
         allforms = [("reg", f) for f in regs] + [("imm", f) for f in imms] + [("mem", f) for f in mems]
         for kind, f in allforms:
             for n in range(1, maxops + 1):
@@ -224,11 +249,36 @@ def main():
         label = (".L10", lambda o: isinstance(o, IdentifierOperand) and o.name == ".L10")
         cond = [(c, (lambda c: (lambda o: isinstance(o, ConditionOperand) and o.ccode == c.upper()))(c)) for c in ("eq", "ne", "lt", "GE", "hi")]
         mn = {1: "br", 2: "mov", 3: "add", 4: "madd", 5: "ccmpx"}
+        # labels as written: also such that start like a condition code, a register, a shift keyword (a label that IS a
+        # condition code or register name is ambiguous in the syntax and not generated)
+        alabels = [".L10", "main", "le_loop", "ne.1", ".eq_done", "eq1", "mi_", "lt.loop", "vs_x", "hi5", "al_loop", "x_loop", "x1_loop", "w0loop", "sp_fix",
+                   "v0_loop", "loop_eq", "cs.l", "ge_", "Le_loop", "NE_x", "d1_", "q_", "p0_lab", "lsl_lab", "sxtw_l", "asr.x", "uxtb_1", "ror_", "mul_vl", "_start", ".LBB0_12"]
+        w1, imm3 = reg_a64("w", 1), imms[0]
         for lay in range(len(LAYOUTS)):
             check_line("b.ne", [label], lay, "label")
             check_line("ret", [], lay, "noops")
             for c in cond:
                 check_line("csel", [fixed, fixed, fixed, c], lay, "cond")
+            for nm in alabels:
+                lb = (nm, (lambda nm: (lambda o: isinstance(o, IdentifierOperand) and o.name == nm))(nm))
+                check_line("b.ne", [lb], lay, "label")
+                check_line("b", [lb], lay, "label")
+                check_line("cbz", [fixed, lb], lay, "label")
+                check_line("tbz", [w1, imm3, lb], lay, "label")
+                check_line("adr", [fixed, lb], lay, "label")
+            # register lists that are not the first operand: members spliced in place
+            for text, want in (("tbl v0.16b, {v1.16b, v2.16b}, v3.16b", ["0", "1", "2", "3"]), ("tbx v0.8b, {v4.16b - v6.16b}, v3.8b", ["0", "4", "5", "6", "3"]),
+                               ("splice z0.s, p0, {z1.s, z2.s}", ["0", "0", "1", "2"]), ("tbl v9.16b, {v30.16b, v31.16b}, v8.16b", ["9", "30", "31", "8"])):
+                mnem, rest = text.split(" ", 1)
+                t = LAYOUTS[lay](mnem, split_ops(rest), CM)
+                R.case(t, sample=dict(line=t))
+                try:
+                    f = parser.parse_line(t, 7)
+                    names = [str(o.name) for o in f.operands if isinstance(o, RegisterOperand)]
+                    if names != want or len(f.operands) != len(want):
+                        R.fail(f"{PROP}/roundtrip/reglist-position", f"{PROP}:reglist-position", f"{t!r}: operands {names}, expected {want}", dict(line=t))
+                except Exception as e:
+                    R.fail(f"{PROP}/roundtrip/rejected", f"{PROP}:rejected:reglist", f"{t!r}: {e!r}", dict(line=t))
             # register lists and ranges
             for text, n_members, first in (("{v0.2d, v1.2d}", 2, 0), ("{v4.4s - v7.4s}", 4, 4), ("{v0.d, v1.d}[1]", 2, 0), ("{z1.s}", 1, 1), ("{v30.16b-v31.16b}", 2, 30)):
                 t = LAYOUTS[lay]("ld1", [text, "[x1]"], CM)
